@@ -116,6 +116,9 @@ def c15(run):
         f = os.path.join(d, "q%d.txt" % n)
         # alternate between the output-file form and stdout
         if n % 2 == 0:
+            if n <= 8:
+                # the output file already exists and holds a LONGER formula (a previous run for a larger board)
+                run_gen("n_queens_gen", ["-n", str(n + 3), f])
             rc, out, err = run_gen("n_queens_gen", ["-n", str(n), f])
         else:
             rc, out, err = run_gen("n_queens_gen", ["-n", str(n)])
